@@ -275,7 +275,7 @@ class Runner:
             if usd: cmd += ['--unwindset', ','.join('%s:%d' % kv for kv in usd.items())]
         if ob.solver == 'kissat': cmd += ['--external-sat-solver', 'kissat']
         elif ob.solver == 'cadical': cmd += ['--sat-solver', 'cadical']
-        rc, so, se, w, rss = run(cmd, timeout=ob.timeout, mem_gb=max(ob.mem_gb * 3, 12))
+        rc, so, se, w, rss = run(cmd, timeout=ob.timeout * float(os.environ.get('VERIF_TIMEOUT_SCALE', '1')), mem_gb=max(ob.mem_gb * 3, 12))
         open(os.path.join(d, 'cbmc%s.out' % tag), 'w').write('CMD: ' + ' '.join(cmd) + '\n' + so + '\n--- stderr ---\n' + se)
         res = dict(cmd=' '.join(cmd), wall_s=round(w, 1), rc=rc)
         if rc is None:
